@@ -6,6 +6,7 @@ import (
 	"os"
 
 	"github.com/spq/pkappa2/verifx/c03"
+	"github.com/spq/pkappa2/verifx/c14"
 	"github.com/spq/pkappa2/verifx/c17"
 	"github.com/spq/pkappa2/verifx/c18"
 	"github.com/spq/pkappa2/verifx/c19"
@@ -24,6 +25,8 @@ func main() {
 		code = c17.Run(*tier)
 	case "C03":
 		code = c03.Run(*tier)
+	case "C14":
+		code = c14.Run(*tier)
 	case "C18":
 		code = c18.Run(*tier)
 	case "C19":
